@@ -25,11 +25,17 @@ Qed.
 Lemma olookup_cons_other o k v m d : olookup o m = Some d -> olookup k m = None -> olookup o ((k, v) :: m) = Some d.
 Proof. intros H1 H2. cbn. destruct (N.eqb_spec o k) as [->|_]; [congruence|exact H1]. Qed.
 
+Fixpoint rcontig (rs:list srange) (e:N) : Prop :=
+  match rs with [] => e = 0 | r :: t => r_dst r + r_len r = e /\ rcontig t (r_dst r) end.
+
 Section R.
 Variable S D0 : mem.
+Variable bound : N.
 Variable dir : list entry.
 (* entries that share an offset share the length (one content) *)
 Hypothesis same_len : forall e1 e2, In e1 dir -> In e2 dir -> off e1 = off e2 -> len e1 = len e2.
+(* every entry lies inside the source's tile data *)
+Hypothesis in_bound : forall e, In e dir -> off e + len e <= bound.
 
 Definition rel (seen:list (N * N)) (e e':entry) : Prop :=
   tid e' = tid e /\ len e' = len e /\ run e' = run e /\ olookup (off e) seen = Some (off e').
@@ -40,7 +46,9 @@ Record RInv (pre:list entry) (st:rstate) : Prop := {
   R_last : match rs_ranges st with last :: _ => r_dst last + r_len last = rs_dst st | [] => rs_dst st = 0 end;
   R_out : Forall2 (rel (rs_seen st)) pre (rev (rs_out st));
   R_keys : forall o d, In (o, d) (rs_seen st) -> exists e1, In e1 pre /\ off e1 = o;
-  R_all : forall e0, In e0 pre -> olookup (off e0) (rs_seen st) <> None
+  R_all : forall e0, In e0 pre -> olookup (off e0) (rs_seen st) <> None;
+  R_contig : rcontig (rs_ranges st) (rs_dst st);
+  R_in : forall r, In r (rs_ranges st) -> r_src r + r_len r <= bound
 }.
 
 Lemma RInv_init : RInv [] (mkRS [] [] [] 0 0).
@@ -52,7 +60,7 @@ Proof. intros Hm H. induction H as [|e e' l l' Hr H IH]; constructor; [|exact IH
 
 Lemma step_inv pre st e : (forall x, In x (pre ++ [e]) -> In x dir) -> RInv pre st -> RInv (pre ++ [e]) (reencode_step st e).
 Proof.
-  intros Hsub [Hc Hl Ho Hk Ha]. unfold reencode_step. destruct (olookup (off e) (rs_seen st)) as [v|] eqn:Ef.
+  intros Hsub [Hc Hl Ho Hk Ha Hct Hrin]. unfold reencode_step. destruct (olookup (off e) (rs_seen st)) as [v|] eqn:Ef.
   - (* content already copied *)
     constructor; cbn [rs_seen rs_ranges rs_dst rs_out].
     + intros o d e0 k Hin He0 Ho0 Hk0. apply in_app_or in He0. destruct He0 as [He0|[<-|[]]]; [apply (Hc o d e0 k); assumption|].
@@ -63,6 +71,8 @@ Proof.
     + cbn [rev]. apply Forall2_app; [exact Ho|]. constructor; [|constructor]. repeat split; auto.
     + intros o d Hin. destruct (Hk o d Hin) as [e1 [He1 Ho1]]. exists e1. split; [apply in_or_app; left; exact He1|exact Ho1].
     + intros e0 He0. apply in_app_or in He0. destruct He0 as [He0|[<-|[]]]; [apply Ha; exact He0|congruence].
+    + exact Hct.
+    + exact Hrin.
   - (* first use: the bytes go to the current end of the destination *)
     set (dst := rs_dst st) in *.
     set (ranges := match rs_ranges st with
@@ -95,6 +105,16 @@ Proof.
     + intros o d [Hin|Hin]; [inversion Hin; subst; exists e; split; [apply in_or_app; right; left; reflexivity|reflexivity]|].
       destruct (Hk o d Hin) as [e1 [He1 Ho1]]. exists e1. split; [apply in_or_app; left; exact He1|exact Ho1].
     + intros e0 He0. cbn. destruct (N.eqb_spec (off e0) (off e)); [discriminate|]. apply in_app_or in He0. destruct He0 as [He0|[<-|[]]]; [apply Ha; exact He0|congruence].
+    + unfold ranges. destruct (rs_ranges st) as [|last rest] eqn:Er; [cbn; fold dst in Hct; cbn in Hct; split; [lia|exact Hct]|].
+      cbn [rcontig] in Hct. destruct Hct as [Hc1 Hc2]. destruct (r_src last + r_len last =? off e); cbn [rcontig r_dst r_len]; fold dst in Hc1.
+      * split; [lia|exact Hc2].
+      * split; [lia|]. split; [exact Hc1|exact Hc2].
+    + assert (Hbe : off e + len e <= bound) by (apply in_bound; apply Hsub; apply in_or_app; right; left; reflexivity).
+      unfold ranges. intros r Hr. destruct (rs_ranges st) as [|last rest] eqn:Er.
+      * destruct Hr as [<-|[]]. cbn. exact Hbe.
+      * destruct (N.eqb_spec (r_src last + r_len last) (off e)) as [Hs|_].
+        -- destruct Hr as [<-|Hr]; [cbn; lia|apply Hrin; right; exact Hr].
+        -- destruct Hr as [<-|Hr]; [cbn; exact Hbe|apply Hrin; exact Hr].
 Qed.
 
 Lemma fold_inv : forall l pre st, (forall x, In x (pre ++ l) -> In x dir) -> RInv pre st -> RInv (pre ++ l) (fold_left reencode_step l st).
@@ -110,7 +130,7 @@ Theorem reencode_content : forall out ranges total addr cont, reencode dir = (ou
                        forall k, k < len e -> exec_all S (map trivial_plan ranges) D0 (off e' + k) = S (off e + k) /\ off e' + len e <= total) dir out.
 Proof.
   intros out ranges total addr cont H. unfold reencode in H. inversion H; subst; clear H.
-  pose proof (fold_inv dir [] _ (fun x Hx => Hx) RInv_init) as Hi. cbn [app] in Hi. destruct Hi as [Hc Hl Ho Hk Ha].
+  pose proof (fold_inv dir [] _ (fun x Hx => Hx) RInv_init) as Hi. cbn [app] in Hi. destruct Hi as [Hc Hl Ho Hk Ha _ _].
   set (st := fold_left reencode_step dir (mkRS [] [] [] 0 0)) in *.
   assert (G : forall l l', Forall2 (rel (rs_seen st)) l l' -> (forall x, In x l -> In x dir) ->
      Forall2 (fun e e' => tid e' = tid e /\ len e' = len e /\ run e' = run e /\
@@ -120,5 +140,14 @@ Proof.
         destruct (Hc (off e) (off e') e k Dq (Hin e (or_introl eq_refl)) eq_refl H); assumption.
     - apply IH. intros x Hx. apply Hin. right. exact Hx. }
   exact (G _ _ Ho (fun x Hx => Hx)).
+Qed.
+
+(* the ranges are contiguous in the destination from 0 and lie inside the source *)
+Theorem reencode_ranges : forall out ranges total addr cont, reencode dir = (out, ranges, total, addr, cont) ->
+  rcontig (rev ranges) total /\ (forall r, In r ranges -> r_src r + r_len r <= bound).
+Proof.
+  intros out ranges total addr cont H. unfold reencode in H. inversion H; subst; clear H.
+  pose proof (fold_inv dir [] _ (fun x Hx => Hx) RInv_init) as Hi. cbn [app] in Hi. destruct Hi as [_ _ _ _ _ Hct Hin].
+  rewrite rev_involutive. split; [exact Hct|]. intros r Hr. apply Hin. apply in_rev. exact Hr.
 Qed.
 End R.
